@@ -1,4 +1,4 @@
-import YaegiVerif.Proofs.C06Sim
+import YaegiVerif.Proofs.C06Hang
 /-
   C06 — "recover stops a panic only when called directly by a deferred function", as a statement about the
   model of yaegi's mechanism for ALL programs (inside or outside `Dom`): if every `recover()` of a program
@@ -17,17 +17,21 @@ def helperOnly : Code → Bool → Bool
   | .printArg k, d => helperOnly k d
   | .call f _ _ k, d => helperOnly f true && helperOnly k d
   | .defer f _ k, d => helperOnly f false && helperOnly k d
+  | .deferVar f _ k, d => helperOnly f false && helperOnly k d
   | .deferBin _ _ k, d => helperOnly k d
   | .deferDel _ k, d => helperOnly k d
+  | .deferPanic _ k, d => helperOnly k d
   | .probe _ k, d => helperOnly k d
   | .panic _ _, _ => true
   | .recover _ k, d => d && helperOnly k d
+  | .recoverIs _ k, d => d && helperOnly k d
   | .repanic k, d => d && helperOnly k d
   | .setRes _ k, d => helperOnly k d
   | .setOuter _ k, d => helperOnly k d
 
 def Event.notRecovered : Event → Bool
   | .recd (some _) => false
+  | .recIs b => !b
   | _ => true
 
 /-- no `recover()` so far has returned a value -/
@@ -41,6 +45,7 @@ theorem noSome_emit (w : World) (e : Event) (h : noSome w.out = true) (he : e.no
 def Entry.helper (e : Entry) : Bool :=
   match e.callee with
   | .src c => helperOnly c false
+  | .held c => helperOnly c false
   | _ => true
 
 /-- what is assumed of / proved for "invoke a function" -/
@@ -53,7 +58,7 @@ theorem helper_push (pre : Bool) (e : Entry) (self : Frame) (he : e.helper = tru
     (h : ∀ x ∈ self.deferred, x.helper = true) : ∀ x ∈ (pushEntry pre e self).deferred, x.helper = true := by
   intro x hx
   cases pre <;> simp only [pushEntry, Bool.false_eq_true, if_false, if_true, List.mem_append, List.mem_cons,
-    List.mem_singleton, List.not_mem_nil, or_false] at hx
+    List.not_mem_nil, or_false] at hx
   · rcases hx with hx | rfl
     · exact h x hx
     · exact he
@@ -101,11 +106,27 @@ theorem body_helper (cf : CallFn) (hcf : HelperInv cf) :
     intro d a anc self w hh ha hs hw he
     simp only [execBodyY]
     exact ih d a anc _ w (by simpa [helperOnly] using hh) ha hs hw (helper_push _ _ _ rfl he)
+  | deferPanic v k ih =>
+    intro d a anc self w hh ha hs hw he
+    simp only [execBodyY, facts_panicDeferrable, if_true]
+    exact ih d a anc _ w (by simpa [helperOnly] using hh) ha hs hw (helper_push _ _ _ rfl he)
   | defer f x k _ ih =>
     intro d a anc self w hh ha hs hw he
     simp only [helperOnly, Bool.and_eq_true] at hh
     simp only [execBodyY]
     exact ih d a anc _ w hh.2 ha hs hw (helper_push _ _ _ (by simpa [Entry.helper] using hh.1) he)
+  | deferVar f x k _ ih =>
+    intro d a anc self w hh ha hs hw he
+    simp only [helperOnly, Bool.and_eq_true] at hh
+    simp only [execBodyY]
+    exact ih d a anc _ w hh.2 ha hs hw (helper_push _ _ _ (by simpa [Entry.helper] using hh.1) he)
+  | recoverIs v k ih =>
+    intro d a anc self w hh ha hs hw he
+    simp only [helperOnly, Bool.and_eq_true] at hh
+    have hr : anc.recovered = none := ha hh.1
+    simp only [execBodyY, facts_recoverReadsAnc, facts_recoverClears, if_true, hr, Option.isSome_none,
+      Bool.and_false, Bool.false_eq_true, if_false, Bool.not_true, Bool.false_and]
+    exact ih d a anc self _ hh.2 ha hs (noSome_emit w _ hw (by simp [Event.notRecovered])) he
   | recover sh k ih =>
     intro d a anc self w hh ha hs hw he
     simp only [helperOnly, Bool.and_eq_true] at hh
@@ -144,7 +165,7 @@ theorem body_helper (cf : CallFn) (hcf : HelperInv cf) :
 
 theorem entries_helper (cf : CallFn) (hcf : HelperInv cf) :
     ∀ (es : List Entry) (self : Frame) (w : World), (∀ e ∈ es, e.helper = true) → noSome w.out = true →
-      noSome (runEntriesY cf es self w).2.2.out = true := by
+      noSome (runEntriesY facts cf es self w).2.2.out = true := by
   intro es
   induction es with
   | nil => intro self w _ hw; exact hw
@@ -156,19 +177,30 @@ theorem entries_helper (cf : CallFn) (hcf : HelperInv cf) :
     cases callee with
     | bin s => simp only [runEntriesY]; exact ih self _ hes (noSome_emit w _ hw rfl)
     | del t => simp only [runEntriesY]; exact ih self _ hes hw
+    | pan v => simp only [runEntriesY, facts_deferredProtected, if_true]; exact ih _ _ hes hw
     | src c =>
-      simp only [runEntriesY]
+      simp only [runEntriesY, facts_deferredProtected, if_true]
       have hc := hcf c (arg.get self.res) self w false (by simpa [Entry.helper] using hee) (fun h => by simp at h) hw
       generalize cf c (arg.get self.res) self w = r at hc ⊢
       obtain ⟨sig, self', rr, w'⟩ := r
       cases sig with
       | normal => exact ih self' w' hes hc.1
-      | panic q => exact hc.1
+      | panic q => exact ih _ w' hes hc.1
       | fuel => exact hc.1
-
-theorem finishY_out (r : Sig × Frame × World) : (finishY r).2.2 = r.2.2 := by
-  obtain ⟨sig, self, w⟩ := r
-  cases sig <;> rfl
+    | held c =>
+      simp only [runEntriesY, facts_deferredProtected, if_true]
+      have hc := hcf c (arg.get self.res) (heldAnc facts self) w false (by simpa [Entry.helper] using hee)
+        (fun h => by simp at h) hw
+      generalize cf c (arg.get self.res) (heldAnc facts self) w = r at hc ⊢
+      obtain ⟨sig, anc', rr, w'⟩ := r
+      cases sig with
+      | normal =>
+        simp only
+        split
+        · exact hc.1
+        · exact ih _ w' hes hc.1
+      | panic q => exact ih _ w' hes hc.1
+      | fuel => exact hc.1
 
 theorem execFnY_helper : ∀ n, HelperInv (execFnY facts n) := by
   intro n
